@@ -69,7 +69,7 @@ func runC27(rc *RunCtx, i int) {
 	var werr error
 	select {
 	case werr = <-done:
-	case <-time.After(5 * time.Minute):
+	case <-time.After(core.Patience):
 		cmd.Process.Kill()
 		<-done
 		rc.Res.Inconc("C27 child watchdog")
@@ -180,7 +180,7 @@ func c27Child(args []string) int {
 			}
 		}
 		switch c.Kind {
-		case "CreateFile", "Write", "Close", "Abort", "Update", "TombstoneFile", "OpenFile", "Read", "Seek", "IterYield":
+		case "CreateFile", "Write", "Close", "Abort", "Update", "TombstoneFile", "OpenFile", "Read", "Seek", "IterYield", "RClose":
 			if pf > 0 && pr.Chance(pf) {
 				count("path.flush_store_failure")
 				return stores.Action{Fail: true}
